@@ -58,7 +58,8 @@ pub const SCALARS: [u32; 25] = [0x00, 0x41, 0x3B, 0x5C, 0x7E, 0x0E, 0x1B, 0x80, 
 /// (U+10000 = 65536 and U+1F4A9 = 128169 are in different NCR length classes)
 pub const SCALARS_SMALL: [u32; 13] = [0x00, 0x41, 0x5C, 0x1B, 0xA5, 0xE9, 0x3042, 0x4E00, 0xFF71, 0x20AC, 0xF780, 0x10000, 0x1F4A9];
 /// includes a scalar of every NCR digit-count class (2..7 digits) and both sides of 65536/100000/1000000
-pub const SCALARS_WIDE: [u32; 46] = [0x10000, 0x1869F, 0x186A0, 0xF423F, 0xF4240, 0x3E8, 0x00, 0x41, 0x20, 0x2C, 0x3B, 0x5C, 0x7E, 0x7F, 0x0E, 0x0F, 0x1B, 0x80, 0xA5, 0xE9, 0xFF, 0x100, 0x203E, 0x2212, 0x20AC, 0x3042, 0x30A2, 0x4E00, 0x4EDD, 0xFF61, 0xFF71, 0xFF9F, 0xAC00, 0xE5E5, 0xE7C7, 0xE78D, 0xE864, 0x2550, 0x5341, 0xF780, 0xF7FF, 0xFFFD, 0x1F4A9, 0x2008A, 0x10FFFF, 0x0411];
+/// ... and holes inside the ideograph / kana arms of the legacy encoders (U+4E02, U+3094, U+9FA1, U+3400, U+2F800)
+pub const SCALARS_WIDE: [u32; 51] = [0x4E02, 0x3094, 0x9FA1, 0x3400, 0x2F800, 0x10000, 0x1869F, 0x186A0, 0xF423F, 0xF4240, 0x3E8, 0x00, 0x41, 0x20, 0x2C, 0x3B, 0x5C, 0x7E, 0x7F, 0x0E, 0x0F, 0x1B, 0x80, 0xA5, 0xE9, 0xFF, 0x100, 0x203E, 0x2212, 0x20AC, 0x3042, 0x30A2, 0x4E00, 0x4EDD, 0xFF61, 0xFF71, 0xFF9F, 0xAC00, 0xE5E5, 0xE7C7, 0xE78D, 0xE864, 0x2550, 0x5341, 0xF780, 0xF7FF, 0xFFFD, 0x1F4A9, 0x2008A, 0x10FFFF, 0x0411];
 /// lone surrogate atoms for UTF-16 sources
 pub const LONE: [u32; 4] = [0xD800, 0xDBFF, 0xDC00, 0xDFFF];
 
